@@ -378,7 +378,7 @@ theorem C13_head_override_name :
     ∀ col ∈ headColumns, headConstKey col = some (col ++ "_start") ∧ loaderColumn (col ++ "_start") = some col := by
   intro col hc
   have hsplit : headColumns = headColumns.take 7 ++ ((headColumns.drop 7).take 7 ++ headColumns.drop 14) := by
-    rw [← List.drop_drop, List.take_append_drop, List.take_append_drop]
+    decide +kernel
   rw [hsplit] at hc
   have : headOK col = true := by
     rcases List.mem_append.mp hc with h | h
@@ -405,8 +405,10 @@ theorem C13_head_override_name_general (p : String) :
 /-- nothing but the override writes a key the herd loader would pick up, and the species table, the
     head-count columns and the slaughter columns fit together -/
 def noLoaderKey (i : SetterInfo) : Bool := i.writes.all fun p => !hasSub p loaderNeedle
-theorem nokey_part1 : (setters.take 2).all noLoaderKey = true := by decide +kernel
-theorem nokey_part2 : (setters.drop 2).all noLoaderKey = true := by decide +kernel
+theorem nokey_part1 : (setters.take 1).all noLoaderKey = true := by decide +kernel
+theorem nokey_part2 : ((setters.drop 1).take 1).all noLoaderKey = true := by decide +kernel
+theorem nokey_part3 : ((setters.drop 2).take 28).all noLoaderKey = true := by decide +kernel
+theorem nokey_part4 : (setters.drop 30).all noLoaderKey = true := by decide +kernel
 
 theorem C13_head_keys_only_from_override :
     (∀ i ∈ setters, ∀ p ∈ i.writes, hasSub p loaderNeedle = false) ∧
@@ -414,11 +416,17 @@ theorem C13_head_keys_only_from_override :
     headColumns = speciesNames.map (· ++ "_head") := by
   refine ⟨?_, by decide +kernel, by decide +kernel⟩
   intro i hi p hp
-  rw [← List.take_append_drop 2 setters] at hi
+  have hsplit : setters = setters.take 1 ++ ((setters.drop 1).take 1 ++ ((setters.drop 2).take 28 ++ setters.drop 30)) := by
+    decide +kernel
+  rw [hsplit] at hi
   have : noLoaderKey i = true := by
     rcases List.mem_append.mp hi with h | h
     · exact List.all_eq_true.mp nokey_part1 i h
-    · exact List.all_eq_true.mp nokey_part2 i h
+    · rcases List.mem_append.mp h with h | h
+      · exact List.all_eq_true.mp nokey_part2 i h
+      · rcases List.mem_append.mp h with h | h
+        · exact List.all_eq_true.mp nokey_part3 i h
+        · exact List.all_eq_true.mp nokey_part4 i h
   simpa using List.all_eq_true.mp this p hp
 
 /-- **the defect that was repaired (D4)**: Python's `key.strip("_start")` strips *characters*; for three
